@@ -310,6 +310,18 @@ from random import Random
     dict(id="p13_sorted_country_choice", prop="C13", expect="pass", patches=[
         (BBAN, '''            country_code = random.choice(list(banks_by_country.keys()))''',
          '''            country_code = random.choice(sorted(banks_by_country))''')], note="changes which country a seed gives, but reproducibly"),
+    dict(id="p13_harmless_clock_and_global_random_use", prop="C13", expect="pass", patches=[
+        (BBAN, '''from random import Random
+''', '''import random as _global_random
+import time as _time
+from random import Random
+
+_stats = {"draws": 0, "last": 0.0, "jitter": 0.0}
+'''),
+        (BBAN, '''        rstr = Rstr(random)''', '''        _stats["draws"] += 1
+        _stats["last"] = _time.time()
+        _stats["jitter"] = _global_random.random()
+        rstr = Rstr(random)''')], note="touches a clock and the global generator for bookkeeping only: result independent, must not be flagged"),
     # ---------------------------------------------------------------- C18
     dict(id="m18_sorted_dropped", prop="C18", expect="flag", patches=[
         (REG, '''for entry in sorted(directory.glob("*.json")):''', '''for entry in directory.glob("*.json"):''')]),
